@@ -81,7 +81,12 @@ def non_null_types_in_frame(d) -> Dict[str, Optional[Set[Type]]]:
         )
     result = dict()
     for col_name in d.columns:
-        types_seen = {type(vi) for vi in d[col_name] if not _is_null(vi)}
+        # nullable extension columns (Int64, boolean, ...) iterate as numpy scalars, plain columns as Python values
+        types_seen = {
+            type(vi.item() if isinstance(vi, np.generic) else vi)
+            for vi in d[col_name]
+            if not _is_null(vi)
+        }
         if len(types_seen) < 1:
             result[col_name] = None
         else:
@@ -162,6 +167,9 @@ class SchemaRaises(SchemaBase):
                 if (spec_i is not None) and (d.shape[0] > 0):
                     for vi in d[col_name]:
                         if not _is_null(vi):
+                            if isinstance(vi, np.generic):
+                                # nullable extension columns (Int64, boolean, ...) iterate as numpy scalars
+                                vi = vi.item()
                             msg_i = self._check_spec(
                                 expected_type=spec_i, observed_value=vi
                             )
